@@ -10,9 +10,9 @@ import numpy as np
 from . import canon as C
 from .simfs import SimFS, Policy
 
-NAMES = ["A", "a", "B", "", "A:1", "A:2", "UNKNOWN", "7", " ", "b", "GR", "Gr", "_ID"]
-NAMES_PLAIN = ["A", "a", "B", "", "UNKNOWN", "7", " ", "b", "GR", "Gr", "_ID"]     # steer away from F-C13-1
-NAMES_FILE = ["A", "a", "B", "", "UNKNOWN", "X7", "b", "GR", "Gr", "DT", "_ID"]
+NAMES = ["A", "a", "B", "", "A:1", "A:2", "UNKNOWN", "7", " ", "b", "GR", "Gr", "_ID", "SW%", "P%s"]
+NAMES_PLAIN = ["A", "a", "B", "", "UNKNOWN", "7", " ", "b", "GR", "Gr", "_ID", "SW%", "P%s"]     # steer away from F-C13-1
+NAMES_FILE = ["A", "a", "B", "", "UNKNOWN", "X7", "b", "GR", "Gr", "DT", "_ID", "SW%"]
 PROBE_KEYS = NAMES + ["A:3", "B:1", "UNKNOWN:1", "unknown", "zz", "a:1", "gr", "_id", "_ID:1", "_x", "__len__x"]
 UNITS = ["", "M", "US/F", "K/M3"]
 VALUES = ["", "x y", 1, "15_9", -7, 250]
@@ -94,6 +94,15 @@ class SectionMachine(object):
 
     def real_items(self):
         return list(list.__iter__(self.s))
+
+    @staticmethod
+    def cit(it):
+        """Canonical item for frame conditions: header fields with their types, and the samples of a curve item."""
+        d = C.citem(it, strict=True)
+        data = getattr(it, "data", None)
+        if data is not None:
+            d["data"] = C.cdata(data)
+        return d
 
     def snapshot(self):
         return [(id(it), it.mnemonic, it.original_mnemonic, it.unit, repr(it.value), it.descr) for it in self.real_items()]
@@ -252,7 +261,7 @@ class SectionMachine(object):
             j = op[1] % len(M)
             key = M[j]["item"].mnemonic
             tgt = self.first(key)
-            before = [C.citem(it, strict=True) for it in self.real_items()]
+            before = [self.cit(it) for it in self.real_items()]
             if op[3] == "attr" and key not in dir(list) and key != "mnemonic_transforms":
                 setattr(s, key, op[2])
             elif op[3] == "int":
@@ -260,7 +269,7 @@ class SectionMachine(object):
                 tgt = M[j]["item"]
             else:
                 s[key] = op[2]
-            after = [C.citem(it, strict=True) for it in self.real_items()]
+            after = [self.cit(it) for it in self.real_items()]
             ti = [k for k, it in enumerate(self.real_items()) if it is tgt]
             if self.check15 and ti:
                 exp = copy.deepcopy(before)
@@ -338,11 +347,11 @@ class SectionMachine(object):
     def op_get(self, key, add):
         s = self.s
         exp = self.first(key)
-        before = [C.citem(it, strict=True) for it in self.real_items()]
+        before = [self.cit(it) for it in self.real_items()]
         ids_before = self.real_items()
         got = s.get(key, add=True) if add else s.get(key)
         ids_after = self.real_items()
-        after = [C.citem(it, strict=True) for it in ids_after]
+        after = [self.cit(it) for it in ids_after]
         if exp is not None:
             if got is not exp:
                 self.fail("C15.get", "get(%r) did not return the present item" % (key,))
@@ -369,11 +378,11 @@ class SectionMachine(object):
         member = bool(real) and j >= 0
         default = real[j % len(real)] if member else self.new_item("DFLT", 5)
         exp = self.first(key)
-        before = [C.citem(it, strict=True) for it in real]
-        dflt_before = C.citem(default, strict=True)
+        before = [self.cit(it) for it in real]
+        dflt_before = self.cit(default)
         got = s.get(key, default, add=True) if add else s.get(key, default)
         after_items = self.real_items()
-        after = [C.citem(it, strict=True) for it in after_items]
+        after = [self.cit(it) for it in after_items]
         if exp is not None:
             if got is not exp or after != before:
                 self.fail("C15.get", "get(%r, default=<item>) on a present key did not just return the present item" % (key,))
@@ -394,7 +403,7 @@ class SectionMachine(object):
                 self.M.append({"item": after_items[-1], "orig": after_items[-1].original_mnemonic})
             else:
                 self.M = [{"item": it, "orig": it.original_mnemonic} for it in after_items]
-        if dict(C.citem(default, strict=True), session=None) != dict(dflt_before, session=None) and not (add and member):
+        if dict(self.cit(default), session=None) != dict(dflt_before, session=None) and not (add and member):
             self.fail("C15.get", "get(%r, default=<item>) modified the default item it was given" % (key,))
         if isinstance(got, self.lasio.HeaderItem) and got.original_mnemonic != key:
             self.fail("C15.get", "get(%r, default=<item>) returned an item named %r" % (key, got.original_mnemonic))
